@@ -443,7 +443,13 @@ type capture struct {
 
 func (c *capture) Write(p []byte) (int, error) { c.mu.Lock(); defer c.mu.Unlock(); return c.b.Write(p) }
 func (c *capture) Close() error                { return nil }
-func (c *capture) take() string                { c.mu.Lock(); defer c.mu.Unlock(); s := c.b.String(); c.b.Reset(); return s }
+func (c *capture) take() string {
+	c.mu.Lock()
+	defer c.mu.Unlock()
+	s := c.b.String()
+	c.b.Reset()
+	return s
+}
 
 func forwardCase(idx int64, r *rand.Rand) {
 	prefix := []string{"pfx", "pfx.", "a.b", ""}[r.IntN(4)]
@@ -638,10 +644,18 @@ func lifecycleCase(idx int64, r *rand.Rand) {
 	}
 	var polls atomic.Int64
 	ngauge := 0
+	slowSupplier := r.IntN(2) == 0 // a supplier that takes about half a poll period: Stop often lands while a poll is in progress
 	addGauge := func() {
 		ngauge++
-		mr.RegisterGauge(fmt.Sprintf("g%d", ngauge), func() (float64, bool) { polls.Add(1); return 1, true })
+		mr.RegisterGauge(fmt.Sprintf("g%d", ngauge), func() (float64, bool) {
+			if slowSupplier {
+				time.Sleep(poll / 2)
+			}
+			polls.Add(1)
+			return 1, true
+		})
 	}
+	atReturn := int64(-1) // supplier invocations counted at the instant the last Stop returned
 	addGauge()
 	started := false
 	var ops []string
@@ -669,6 +683,9 @@ func lifecycleCase(idx int64, r *rand.Rand) {
 			abort(sig, rt.J{"pollers": got, "model_started": started})
 		}
 		if !started {
+			if atReturn >= 0 && polls.Load() != atReturn {
+				abort("gauge-polled-after-stop-returned", rt.J{"polls_when_stop_returned": atReturn, "polls_now": polls.Load(), "slow_supplier": slowSupplier})
+			}
 			c1 := polls.Load()
 			time.Sleep(6 * poll)
 			if c2 := polls.Load(); c2 != c1 {
@@ -716,7 +733,11 @@ func lifecycleCase(idx int64, r *rand.Rand) {
 		switch name {
 		case "Start":
 			started = true
+			atReturn = -1
 		case "Stop":
+			if started {
+				atReturn = polls.Load()
+			}
 			started = false
 		}
 		check()
